@@ -318,7 +318,7 @@ pub fn solve_once<RT: resolvo::runtime::AsyncRuntime>(solver: &mut Solver<TableP
                         g.graphviz(&mut buf, solver.provider(), true).unwrap();
                         String::from_utf8_lossy(&buf).to_string()
                     }));
-                    match gv { Ok(s) => out.push(format!("graphviz-len {}", s.len())), Err(e) => out.push(format!("graphviz {}", panic_line(e))) }
+                    match gv { Ok(s) => { out.push(format!("graphviz-len {}", s.len())); out.push(format!("graphviz-hex {}", hex(&s))); } Err(e) => out.push(format!("graphviz {}", panic_line(e))) }
                 }
             }
         }
